@@ -111,7 +111,7 @@ pub fn run(rep: &mut Rep) {
     }
     tails.push(("a0".into(), vec![0xa0]));
     tails.push(("f6".into(), vec![0xf6]));
-    let n_random = if rep.thorough() { 2048 } else { 64 };
+    let n_random = if rep.thorough() { 20_000 } else { 64 };
     let mut case = 0u64;
     for b in 0..=255u8 {
         let mut all = tails.clone();
@@ -183,7 +183,7 @@ pub fn run(rep: &mut Rep) {
     // 0x41 decodes exactly like 0x0A: every single fault of well-formed seeds (missing required
     // members, wrong types, ...) must be answered identically under both command bytes
     let cm = schema::credential_management();
-    let nf = rep.n(12, 600);
+    let nf = rep.n(12, 3000);
     for _ in 0..nf * rep.nshards {
         case += 1;
         if !rep.mine(case) {
@@ -215,7 +215,7 @@ pub fn run(rep: &mut Rep) {
             }
         }
     }
-    let n = rep.n(400, 40_000);
+    let n = rep.n(400, 400_000);
     for _ in 0..n * rep.nshards {
         case += 1;
         if !rep.mine(case) {
